@@ -714,9 +714,45 @@ def structure(ctx) -> None:
     ctx.floor('R-OPERAND', n, 25)
     n = shared.r_fieldpos(ctx, [c for c in prog.classes.values() if c.module.name in FAMILY_MODULES])
     ctx.floor('R-FIELDPOS', n, 20)
+    shared.r_paramflow(ctx, list(prog.functions(fam)))
+    no_call_memo(ctx)
+    ne_pairing(ctx)
+
+
+def no_call_memo(ctx) -> None:
+    """The DSL memoises per *object* (``cached_property``), never per *call*: ``lru_cache``/``cache`` on a function of the value
+    family hashes its arguments - array and map literals are unhashable (a conforming statement would raise TypeError), and a
+    hit is decided by hash-then-eq of operands whose ``==`` builds expressions."""
+    prog = ctx.prog
+    n = 0
+    for fn in prog.functions([m for m in prog.modules if m in FAMILY_MODULES]):
+        n += 1
+        memo = [d for d in core.decorator_names(fn.node) if d.split('.')[-1] in ('lru_cache', 'cache')]
+        ctx.check(not memo, 'C08.call-memo', fn, f'{fn.qual} is memoised per call ({memo}): its arguments are DSL values / native literals (unhashable arrays and maps raise, hash-equal operands alias)', fn.node, key=f'memo:{fn.qual}')
+    ctx.floor('C08.call-memo', n, 100)
+
+
+def ne_pairing(ctx) -> None:
+    """A tuple-backed class that defines ``__eq__`` defines ``__ne__`` with it (itself or an in-repo ancestor below the one that
+    brought the tuple in): otherwise ``!=`` is ``tuple.__ne__`` - element-wise, blind to whatever ``__eq__`` adds (the source
+    type, the alias) - and ``a == b`` and ``a != b`` can both be False."""
+    prog = ctx.prog
+    n = 0
+    for ci in [c for c in prog.classes.values() if c.module.name in FAMILY_MODULES]:
+        if '__eq__' not in ci.methods:
+            continue
+        tupled = any(b.split('.')[-1] in ('tuple', 'NamedTuple', 'namedtuple') for c in ci.mro_classes() for b in c.external_bases()) or any(isinstance(b, ast.Call) and (core.call_name(b) or '').endswith('namedtuple') for c in ci.mro_classes() for b in c.node.bases)
+        if not tupled:
+            continue
+        n += 1
+        got = ci.lookup('__ne__')
+        ctx.check(got is not None, 'C08.ne-pairing', ci.ref, f'{ci.qual} defines __eq__ over a tuple base but no __ne__ is defined in the class hierarchy: `!=` falls back to tuple.__ne__', ci.methods['__eq__'], key=f'ne:{ci.qual}')
+    ctx.floor('C08.ne-pairing', n, 1)
 
 
 def run(ctx) -> None:
+    # a generator over terms/features yields for each element what that element says (Ordering.make, dissect, ...)
+    ctx.floor('R-ITERCARRIED', shared.r_itercarried(ctx, ctx.prog.functions([m for m in ctx.prog.modules if m.startswith(('forml.io.dsl',))])), 2)
     tenv = types.TypeEnv(ctx.prog)
     structure(ctx)
     eq_total(ctx)
